@@ -62,6 +62,14 @@ CHECKS = {
                      "McMurchie-Davidson reference. Enumeration of all bracketing thresholds is what decides the "
                      "'exactly when the distance is below the threshold' clause.",
                 technique="exhaustive enumeration of configurations and critical thresholds against a reference model"),
+    "C05": dict(engine=E1, ref="5/C05",
+                text="Single shells l 0..6 x shapes x types and 2-4-shell bases x all type patterns x transforms are "
+                     "evaluated at a point set covering centre / plane / axis / generic / far classes for ALL 125 "
+                     "order triples with both back-ends and an unknown back-end; compared with exact polynomial "
+                     "differentiation at 1e-9 of the condition scale; 'direct' must equal 'general' for orders <= 2 "
+                     "and must raise above; complete enumeration of orders x back-ends is what decides the "
+                     "agree-or-reject clause.",
+                technique="exhaustive enumeration of orders, back-ends and configurations against a reference model"),
 }
 
 NOT_YET = {}
